@@ -81,6 +81,12 @@ pub fn lex_number(source: &[char]) -> Option<FoundToken> {
 
     // Find the longest possible valid number
     while !s.is_empty() {
+        // A trailing period ends the sentence; it is not part of the number.
+        if s.ends_with('.') {
+            s.pop();
+            continue;
+        }
+
         if let Ok(n) = s.parse::<f64>() {
             let precision = s.chars().rev().position(|c| c == '.').unwrap_or_default();
 
